@@ -320,7 +320,19 @@ class ReturnStatementsTransformer(converter.Base):
 
   def visit_Try(self, node):
     node.body = self._visit_statement_block(node, node.body)
+    body_may_return = self.state[_Block].return_used
     node.orelse = self._visit_statement_block(node, node.orelse)
+    if node.orelse and body_may_return:
+      # The else clause runs when the body completes; once the return in the
+      # body has been lowered to a flag, it must be skipped explicitly.
+      template = """
+        if not do_return_var_name:
+          orelse
+      """
+      node.orelse = templates.replace(
+          template,
+          do_return_var_name=self.state[_Function].do_return_var_name,
+          orelse=node.orelse)
     node.finalbody = self._visit_statement_block(node, node.finalbody)
     node.handlers = self.visit_block(node.handlers)
     return node
